@@ -30,6 +30,28 @@ THEOREMS = [
     "PV.C15.checkedAdd_shift",
     "PV.C15.checkedSub_shift",
     "PV.C15.ordering_spec",
+    "PV.C15.addStart_spec",
+    "PV.C15.subStart_spec",
+    "PV.C15.addEnd_spec",
+    "PV.C15.subEnd_spec",
+    "PV.C15.shiftOps_spec",
+    "PV.C15.boundsContains_iff_mem",
+    "PV.C15.coverOffset_hull",
+    "PV.C15.constructors_spec",
+    "PV.C15.index_spec",
+    "PV.C15.indexMut_spec",
+    "PV.C15.upTo_after_partition",
+    "PV.C15.sum_spec",
+    "PV.C15.lineEnding_spec",
+    "PV.C15.line_queries_spec",
+    "PV.C15.line_queries_overflow",
+    "PV.C15.line_offsets_spec",
+    "PV.C15.line_form",
+    "PV.C15.last_spec",
+    "PV.C15.trailingLines_spec",
+    "PV.C15.oneIndexed_conversions",
+    "PV.C15.oneIndexed_tryFrom_none",
+    "PV.C15.oneIndexed_saturating",
 ]
 TRUSTED = [
     "Lean 4.33.0 kernel; axioms limited to propext, Classical.choice, Quot.sound",
@@ -89,11 +111,53 @@ def _strip_nl(l):
     return l
 
 
-def _parse_line_item(s):
-    if s == "none":
-        return None
-    o, full, txt = s.split(":")
-    return int(o), unhex(full), unhex(txt)
+M32 = 2**32 - 1
+
+
+def _boundary(b, o):
+    """o is a character boundary of the UTF-8 text b (0 <= o <= len)"""
+    return 0 <= o <= len(b) and (o == len(b) or (b[o] & 0xC0) != 0x80)
+
+
+def _slice(b, lo, hi):
+    """what text[lo..hi] must give: the bytes, or None where Rust's str indexing panics"""
+    if lo <= hi <= len(b) and _boundary(b, lo) and _boundary(b, hi):
+        return b[lo:hi]
+    return None
+
+
+def _h(x):
+    return "none" if x is None else hexs(x)
+
+
+def _n(x):
+    return "none" if x is None else str(x)
+
+
+def _rng(s, e):
+    return "none" if s is None or e is None else f"{s}..{e}"
+
+
+def _fit(x):
+    return x if 0 <= x <= M32 else None
+
+
+def _line_str(start, full):
+    """offset:full:stripped:end:full_end:range:full_range:full_text_len, from the property text"""
+    body = _strip_nl(full)
+    end = _fit(start + len(body))
+    fend = _fit(start + len(full))
+    return (f"{start}:{hexs(full)}:{hexs(body)}:{_n(end)}:{_n(fend)}:{_rng(start, end)}:"
+            f"{_rng(start, fend)}:{len(full)}")
+
+
+def _upper(bs):
+    return bytes(x - 32 if 97 <= x <= 122 else x for x in bs)
+
+
+def _utf8_len(ch):
+    o = ord(ch)
+    return 1 if o < 0x80 else 2 if o < 0x800 else 3 if o < 0x10000 else 4
 
 
 def oracle(req, out):
@@ -106,7 +170,8 @@ def oracle(req, out):
         text = b.decode("utf-8")
         lines = _split_lines(b)
         idx_lines = lines + [b""] if (not b or b[-1:] in (b"\n", b"\r")) else lines
-        m = re.match(r"starts=\[(.*?)\] count=(\d+) locs=(\S*) lines=(\S*)$", out)
+        m = re.match(r"starts=\[(.*?)\] count=(\d+) locs=(\S*) lines=(\S*) cuts=(\S*) text=(\S*) dlen=(\d+) "
+                     r"file=(\S*)$", out)
         if not m:
             return "unparsable answer"
         starts = [int(x) for x in m.group(1).split(",")] if m.group(1).strip() else []
@@ -142,50 +207,108 @@ def oracle(req, out):
             exp = f"{st},{en},{st},{en},{hexs(l)}"
             if items[r] != exp:
                 return f"line {r}: {items[r]} != {exp}"
+        cuts = m.group(5).split(";")
+        if len(cuts) != len(b) + 2:
+            return f"{len(cuts)} up_to/after answers for {len(b) + 2} offsets"
+        for o, c in enumerate(cuts):
+            ok = _boundary(b, o)
+            exp = f"{_h(b[:o] if ok else None)}/{_h(b[o:] if ok else None)}"
+            if c != exp:
+                return f"up_to/after({o}) = {c}, expected {exp} (the two pieces of the text cut at the offset)"
+        if m.group(6) != hexs(b):
+            return "SourceCode::text() is not the text"
+        if int(m.group(7)) != len(idx_lines):
+            return f"LineIndex as a slice has {m.group(7)} entries, expected {len(idx_lines)}"
+        first = idx_lines[0]
+        expf = f"{len(idx_lines)}:{','.join(map(str, exp_starts))}:{hexs(first)}:{hexs(b)}:{hexs(b'f.py')}"
+        fs = m.group(8).split("|")
+        if len(fs) != 4 or fs[3] != "true":
+            return f"SourceFile values built from the same name/text/index are not equal: {m.group(8)}"
+        for k, f in enumerate(fs[:3]):
+            if f != expf:
+                return f"SourceFile #{k}: {f} != {expf}"
         return None
     if ws[0] == "nliter":
         b = unhex(ws[1])
         off = int(ws[2])
         ops = "" if ws[3] == "-" else ws[3]
+        if off + len(b) > M32:
+            return None if out == "overflow" else "with_offset past u32::MAX did not panic"
+        m = re.match(r"(\S*) last=(\S*) trailing=(\S*) ext=(\S*) from=(\S*) find=(\S*)$", out)
+        if not m:
+            return "unparsable answer"
         lines = _split_lines(b)
         starts, o = [], off
         for l in lines:
             starts.append(o)
             o += len(l)
-        body, trailing = out.split(" trailing=")
-        got = body.split(";") if ops else []
+        got = m.group(1).split(";") if ops else []
         lo, hi = 0, len(lines)
         for op, g in zip(ops, got):
             if lo >= hi:
                 exp = "none"
             elif op == "f":
-                exp = f"{starts[lo]}:{hexs(lines[lo])}:{hexs(_strip_nl(lines[lo]))}"
+                exp = _line_str(starts[lo], lines[lo])
                 lo += 1
             else:
                 hi -= 1
-                exp = f"{starts[hi]}:{hexs(lines[hi])}:{hexs(_strip_nl(lines[hi]))}"
+                exp = _line_str(starts[hi], lines[hi])
             if g != exp:
                 return f"op {op}: got {g}, expected {exp}"
-        tl = [f"{starts[k]}:{hexs(l)}:{hexs(_strip_nl(l))}" for k, l in enumerate(lines)]
-        if b and b[-1:] in (b"\n", b"\r"):
-            tl.append(f"{off + len(b)}:-:-")
-        if trailing != ";".join(tl):
-            return f"trailing-newline variant: {trailing} != {';'.join(tl)}"
+        exp = _line_str(starts[hi - 1], lines[hi - 1]) if lo < hi else "none"
+        if m.group(2) != exp:
+            return f"last() = {m.group(2)}, expected {exp} (the last remaining line)"
+        tl = [_line_str(starts[k], l) for k, l in enumerate(lines)]
+        nl_end = bool(b) and b[-1:] in (b"\n", b"\r")
+        if nl_end:
+            tl.append(_line_str(off + len(b), b""))
+        if m.group(3) != ";".join(tl):
+            return f"trailing-newline variant: {m.group(3)} != {';'.join(tl)}"
+        el = [_line_str(starts[k] - off, l) for k, l in enumerate(lines)]
+        if m.group(4) != ";".join(el):
+            return f"str.universal_newlines(): {m.group(4)} != {';'.join(el)}"
+        if nl_end:
+            el.append(_line_str(len(b), b""))
+        if m.group(5) != ";".join(el):
+            return f"NewlineWithTrailingNewline::from: {m.group(5)} != {';'.join(el)}"
+        pos = next((i for i, c in enumerate(b) if c in (10, 13)), None)
+        if pos is None:
+            exp = "none"
+        else:
+            if b[pos] == 10:
+                name, e = "Lf", b"\n"
+            elif b[pos + 1:pos + 2] == b"\n":
+                name, e = "CrLf", b"\r\n"
+            else:
+                name, e = "Cr", b"\r"
+            exp = f"{pos},{name},{hexs(e)},{len(e)},{len(e)},{hexs(e)}"
+        if m.group(6) != exp:
+            return f"find_newline = {m.group(6)}, expected {exp}"
         return None
+    if ws[0] == "line":
+        t = unhex(ws[1])
+        off = int(ws[2])
+        cmp_ = unhex(ws[3])
+        body = _strip_nl(t)
+        e = str(body == cmp_).lower()
+        exp = (f"{_line_str(off, t)} deref={hexs(body)} eq={e},{e},{str(body == t).lower()},true same=true")
+        return None if out == exp else f"Line::new queries: {out} != {exp}"
     if ws[0] == "range":
         a, b_, c, d = (int(x) for x in ws[1:5])
         t = unhex(ws[5])
-        M = 2**32 - 1
+        M = M32
         if a > b_:
             return None if out == "new=none" else "TextRange::new(start > end) did not panic"
         if c > d:
             return None if out == "other=none" else "TextRange::new(start > end) did not panic"
         f = dict(kv.split("=", 1) for kv in out.split())
-        R = range(a, b_)
-        O = range(c, d)
 
         def rng(s, e):
             return f"{s}..{e}"
+        shifted_up = rng(a + c, b_ + c) if b_ + c <= M else "none"
+        shifted_down = rng(a - c, b_ - c) if c <= a else "none"
+        sl = _slice(t, a, b_)
+        mut = None if sl is None else t[:a] + _upper(sl) + t[b_:]
         exp = {
             "len": str(b_ - a), "empty": str(a == b_).lower(),
             "contains": str(a <= c < b_).lower(), "containsI": str(a <= c <= b_).lower(),
@@ -193,23 +316,62 @@ def oracle(req, out):
             "intersect": rng(max(a, c), min(b_, d)) if max(a, c) <= min(b_, d) else "none",
             "cover": rng(min(a, c), max(b_, d)),
             "coverOff": rng(min(a, c), max(b_, c)),
-            "add": rng(a + c, b_ + c) if b_ + c <= M else "none",
-            "sub": rng(a - c, b_ - c) if c <= a else "none",
+            "add": shifted_up,
+            "sub": shifted_down,
             "ord": "-1" if b_ <= c else ("1" if d <= a else "0"),
             "at": rng(a, a + c) if a + c <= M else "none",
             "upto": rng(0, b_),
+            # moving one end: the set grows/shrinks at that end; a panic exactly when the new end leaves
+            # u32 or crosses the other end
+            "substart": rng(a - c, b_) if c <= a else "none",
+            "addstart": rng(a + c, b_) if a + c <= b_ else "none",
+            "subend": rng(a, b_ - c) if c <= b_ and a <= b_ - c else "none",
+            "addend": rng(a, b_ + c) if b_ + c <= M else "none",
+            "addop": "|".join([shifted_up] * 4),
+            "subop": "|".join([shifted_down] * 4),
+            "bounds": f"I{a},E{b_}",
+            "rbcontains": str(a <= c < b_).lower(),
+            "index": _h(sl), "sindex": _h(sl),
+            "imut": _h(mut), "simut": _h(mut),
         }
-        ok_slice = b_ <= len(t)
-        if ok_slice:
-            try:
-                t[a:b_].decode("utf-8")
-                t[:a].decode("utf-8")
-            except UnicodeDecodeError:
-                ok_slice = False
-        exp["index"] = hexs(t[a:b_]) if ok_slice else "none"
         for k, v in exp.items():
             if f.get(k) != v:
                 return f"{k}: got {f.get(k)}, expected {v} (set reading of ranges)"
+        return None
+    if ws[0] == "size":
+        a, b_ = int(ws[1]), int(ws[2])
+        t = unhex(ws[3])
+        chars = t.decode("utf-8")
+        add = _n(_fit(a + b_))
+        sub = _n(_fit(a - b_))
+        sums = [_fit(a + b_), _fit(2 * a + b_), _fit(len(t)), 0]
+        exp = (f"add={'|'.join([add] * 6)} sub={'|'.join([sub] * 6)} cadd={add} csub={sub} "
+               f"of={len(t)},{len(t)},{len(t)} ofc={','.join(str(_utf8_len(ch)) for ch in chars) or '-'} "
+               f"sum={'|'.join(_n(x) for x in sums)} u32={a},{a} try={add}")
+        return None if out == exp else f"TextSize arithmetic: {out} != {exp}"
+    if ws[0] == "oneidx":
+        v, rhs = int(ws[1]), int(ws[2])
+        head = f"try={min(v + 1, M32) if v <= M32 else 'err' + str(v)} min=1 max={M32} dflt=1,1"
+        if v > M32:
+            exp = head
+        else:
+            fzi = min(v + 1, M32)
+            one = "none" if v == 0 else f"{v - 1},{v - 1},{v},{min(v + rhs, M32)},{max(1, v - rhs)},{v}"
+            exp = f"{head} new={v if v else 'none'} fzi={fzi} back={fzi - 1} one={one}"
+        return None if out == exp else f"OneIndexed: {out} != {exp}"
+    if ws[0] == "slices":
+        t = unhex(ws[1])
+        n = len(t) + 1
+        got = out.split(";")
+        if len(got) != (n + 1) ** 2:
+            return "wrong number of slices"
+        k = 0
+        for a in range(n + 1):
+            for b_ in range(n + 1):
+                exp = _h(_slice(t, a, b_))
+                if got[k] != exp:
+                    return f"slice({a}..{b_}) = {got[k]}, expected {exp} (the bytes at the offsets of the range)"
+                k += 1
         return None
     return None
 
@@ -230,6 +392,11 @@ def streams(ctx):
         n = len(_split_lines(t))
         for ops in itertools.product("fb", repeat=min(n + 1, 4)):
             reqs.append(f"nliter {hexs(t)} 7 {''.join(ops)}")
+        reqs.append(f"slices {hexs(t)}")
+        reqs.append(f"line {hexs(t)} 5 {hexs(_strip_nl(t))}")
+    reqs += ["range 5 10 3 4 -", "range 5 10 6 6 -", f"range 1 3 1 2 {hexs('aé😀b'.encode())}",
+             f"size 4294967295 1 {hexs('é😀'.encode())}", "size 5 7 -", "oneidx 0 1", "oneidx 1 1", "oneidx 4294967295 1",
+             "oneidx 4294967296 0", "oneidx 3 5", "nliter 61 4294967295 f", "line 610a620a 4294967292 61"]
     out.append(Stream("corpus", reqs, kind="corpus"))
 
     L = 5 if ctx.quick else 6
@@ -246,12 +413,53 @@ def streams(ctx):
     out.append(Stream(f"nliter-all-interleavings-len<={Li}", reqs, kind="exhaustive", exhaustive=True,
                       note="every next/next_back interleaving of length lines+1 (one call past exhaustion)",
                       nontrivial=lambda r: r.split()[1] != "-"))
-    # ranges: endpoints small and near 2^32
+    # the iterator / Line::new next to u32::MAX: exact fit, one past, far past
+    Lb = 3 if ctx.quick else 4
+    reqs = []
+    for t in _texts(Lb):
+        n = len(_split_lines(t))
+        for off in (M32 - len(t) - 1, M32 - len(t), M32 - len(t) + 1, M32):
+            if not 0 <= off <= M32:
+                continue
+            for ops in ("f" * (n + 1), "b" * (n + 1), ("fb" * (n + 1))[:n + 1]):
+                reqs.append(f"nliter {hexs(t)} {off} {ops}")
+    out.append(Stream(f"nliter-offset-near-u32-max-len<={Lb}", sorted(set(reqs)), kind="exhaustive", exhaustive=True,
+                      note="offset + len = u32::MAX - 1, u32::MAX, u32::MAX + 1 (with_offset panics), offset = u32::MAX",
+                      nontrivial=lambda r: r.split()[1] != "-"))
+    Ll = 3 if ctx.quick else 4
+    reqs = []
+    for t in _texts(Ll):
+        body = _strip_nl(t)
+        offs = {0, 7, M32 - len(t) - 1, M32 - len(t), M32 - len(t) + 1, M32 - len(body), M32 - len(body) + 1, M32}
+        for off in sorted(o for o in offs if 0 <= o <= M32):
+            for c in {body, t, body.decode()[:-1].encode()}:
+                reqs.append(f"line {hexs(t)} {off} {hexs(c)}")
+    out.append(Stream(f"line-new-queries-len<={Ll}", reqs, kind="exhaustive", exhaustive=True,
+                      note="Line::new on every text (also with breaks in the middle) x offsets 0, 7 and around the u32 "
+                           "overflow of end / full_end; start/end/full_end/range/full_range/full_text_len/Deref/PartialEq",
+                      nontrivial=lambda r: r.split()[1] != "-"))
+    # ranges: endpoints small (every offset of the text and one past it) and near 2^32
+    text = "abé😀c".encode()
+    pts_ab = [0, 1, 2, 3, 4, 8, 9, 10, 2**32 - 2, 2**32 - 1]
     pts = [0, 1, 2, 3, 4, 2**32 - 2, 2**32 - 1]
-    text = "aé😀b".encode()
-    reqs = [f"range {a} {b} {c} {d} {hexs(text)}" for a in pts for b in pts for c in pts for d in pts]
+    reqs = [f"range {a} {b} {c} {d} {hexs(text)}" for a in pts_ab for b in pts_ab for c in pts for d in pts]
     out.append(Stream("range-algebra-endpoints", reqs, kind="exhaustive", exhaustive=True,
-                      note="all 4-tuples of endpoints from {0..4, 2^32-2, 2^32-1}"))
+                      note="ranges over {0..4, 8, 9, 10, 2^32-2, 2^32-1} (every kind of offset of the 9-byte text: "
+                           "boundary, inside a 2-byte and a 4-byte character, the end, past the end) x second range / "
+                           "amount over {0..4, 2^32-2, 2^32-1}"))
+    sp = [0, 1, 2, 3, 2**31 - 1, 2**31, 2**31 + 1, 2**32 - 3, 2**32 - 2, 2**32 - 1]
+    reqs = [f"size {a} {b} {hexs(t)}" for a in sp for b in sp for t in (b"", "aé".encode(), "﻿😀\x7f߿ࠀ".encode())]
+    out.append(Stream("textsize-boundary-pairs", reqs, kind="exhaustive", exhaustive=True,
+                      note="TextSize +, - (by value, by reference, assign), checked_add/sub, Sum, of(str/String/char)"))
+    vs = [0, 1, 2, 3, 2**31, M32 - 2, M32 - 1, M32, M32 + 1, M32 + 2, 2**63, 2**64 - 1]
+    rs = [0, 1, 2, 3, 2**31, M32 - 2, M32 - 1, M32]
+    out.append(Stream("oneindexed-boundary-pairs", [f"oneidx {v} {r}" for v in vs for r in rs], kind="exhaustive",
+                      exhaustive=True, note="OneIndexed new/from_zero_indexed/try_from_zero_indexed/to_*/saturating_* at "
+                                            "0, 1, u32::MAX and past it (usize)"))
+    Ls = 4 if ctx.quick else 5
+    out.append(Stream(f"slices-exhaustive-len<={Ls}", [f"slices {hexs(t)}" for t in _texts(Ls)], kind="exhaustive",
+                      exhaustive=True, note="SourceCode::slice / SourceFile::slice for EVERY pair of offsets 0..len+1",
+                      nontrivial=lambda r: r.split()[1] != "-"))
     # random longer texts
     rng = ctx.rng("random")
     n = 1500 if ctx.quick else 40000
@@ -264,5 +472,14 @@ def streams(ctx):
         nl = len(_split_lines(t))
         ops = "".join(rng.choice("fb") for _ in range(nl + 2))
         reqs.append(f"nliter {hexs(t)} {rng.choice([0, 1, 400, 2**31])} {ops}")
+        if k <= 12:
+            n = len(t)
+            pick = lambda: rng.choice([rng.randrange(0, n + 2), rng.randrange(0, n + 2), M32 - rng.randrange(0, 3)])
+            a, b = sorted((pick(), pick()))
+            c, d = sorted((pick(), pick()))
+            reqs.append(f"range {a} {b} {c} {d} {hexs(t)}")
+            reqs.append(f"line {hexs(t)} {min(M32, rng.choice([0, 3, M32 - n, M32 - n + 1]))} {hexs(_strip_nl(t))}")
+        if k <= 5:
+            reqs.append(f"slices {hexs(t)}")
     out.append(Stream("random-longer", reqs, kind="random"))
     return out
